@@ -67,6 +67,7 @@ class DictRun:
         self.per_state = collections.Counter()
         self.known_seen = collections.Counter()
         self.blocked = collections.OrderedDict()
+        self.in_classes = {}
 
     def input_path(self, case):
         h = case.ihash()
@@ -161,6 +162,13 @@ class DictRun:
             self.per_state[case.state] += 1
             for k, v in out["counters"].items():
                 self.counters[k] += v
+            if res["status"] == "ok":   # input-shape classes of the cases that ran to the end (Appendix C)
+                ih = case.ihash()
+                base = self.in_classes.get(ih)
+                if base is None:
+                    base = self.in_classes[ih] = gen.input_classes(case.S, 0)
+                for c in base | gen.bucket_classes(len(case.S), case.bs()):
+                    self.counters["cls.in_" + c] += 1
             if len(self.samples) < 10 and out["samples"]:
                 self.samples.append(out["samples"][0])
             if res["status"] == "harness":
